@@ -3,9 +3,13 @@ at run time has the kind of the static type the compiler reports for the express
 
   (a) operator tables        Coq: Types/OpTable.v   op_table_sound / op_assign_keeps_kind / un_table_sound  (PROOF, all 900+12 cells)
                              tie: every cell x 2 operand variants through the real compiler + interpreter    (exhaustive)
-  (b) compatibility relation Coq: Types/Compat.v + CompatProofs.v   eq_complex_same_skeleton / eq_complex_compat (PROOF, all depths, all flags)
-                             tie: pairs of types up to constructor depth 2 x 6 typed positions               (accept/reject vs model)
-  (c) whole programs         type-directed generator + boundary catalogue, judged against the property itself  (SEARCH, no model)
+  (b) compatibility relation Coq: Types/Compat.v + CompatProofs.v + CompatLit.v   eq_complex_same_skeleton / eq_complex_compat /
+                             eq_complex_literal(_swapped)                                    (PROOF, all depths, all flags, both orders)
+                             tie: pairs of types up to constructor depth 2 x 7 typed positions               (accept/reject vs model)
+  (c) whole programs         Coq: Types/Core0.v core0_sound (PARTIAL PROOF: native kinds, all operators at any depth, declaration /
+                             re-binding / op-assign / if / while: a checked program never reaches a type error, any oracle, any fuel)
+                             type-directed generator (well-typed stream + one-fault-per-program stream) + boundary catalogue,
+                             judged against the property itself                                               (SEARCH, no model)
 """
 import time
 
@@ -14,7 +18,7 @@ from . import c02_common as cc
 from . import c02_optable, c02_compat, c02_gen, c02_check, c02_catalogue
 
 THEOREMS = ["C02_op_table_sound", "C02_op_assign_keeps_kind", "C02_un_table_sound", "C02_eq_complex_same_skeleton",
-            "C02_eq_complex_compat"]
+            "C02_eq_complex_compat", "C02_eq_complex_literal", "C02_eq_complex_literal_swapped", "C02_type_soundness_partial"]
 
 
 def run_generated(ctx, binary, n_programs, size, fault=False):
@@ -131,7 +135,8 @@ def run(ctx):
                        "anything about soundness): accepted cells, accepted compatibility cases, accepted catalogue entries, generated programs that ran to completion; "
                        "generator.observations = (typeof, kind tag) pairs compared")
     ctx.cov["proof_vs_search"] = {"proof": "(a) operator tables and (b) compatibility relation: Coq theorems over models tied to the code by the exhaustive / depth-2 runs of this check",
-                                  "search": "(c) whole-program soundness (checker + code generator + interpreter together): type-directed generation and a boundary catalogue, no Coq model"}
+                                  "partial_proof": "(c) Core-0 fragment only (Types/Core0.v core0_sound): native kinds, every operator at every depth, declaration / re-binding / op-assign / if / while",
+                                  "search": "(c) everything else -- lists, maps, optionals, functions, classes, aliases, from-loops, and checker + code generator + interpreter together: type-directed generation (well-typed and one-fault streams) and a boundary catalogue, no Coq model"}
     ctx.cov["trusted_base"] = ["Coq 8.16.1 kernel (coqc; vm_compute for the finite table and the examples)", "no axioms (Print Assumptions: closed under the global context)",
                                "hand-written models Types/OpTable.v, Types/Compat.v, tied to get_output_type / run-time ops / eq_complex by this run",
                                "hook H2 (MSCRIPT_VERIF_TYPED_PRINT kind tags), the parser of `typeof` strings and the run-time error classifier in vlib/c02_common.py, c02_check.py",
